@@ -6,6 +6,7 @@ package main
 import (
 	"context"
 	"encoding/json"
+	"encoding/xml"
 	"fmt"
 	"math/rand"
 	"sort"
@@ -24,6 +25,7 @@ type c07Op struct {
 	N     int    `json:"n,omitempty"`     // burst: number of concurrent copies
 	Fail  bool   `json:"fail,omitempty"`  // sendiq: the transport write fails
 	Early bool   `json:"early,omitempty"` // sendiq: the response is routed from inside the transport Write (before SendIQ returns)
+	XID   int    `json:"xid,omitempty"`   // arrive: the response comes off the wire (decoded by stanza.NextPacket) carrying, besides its id, a look-alike attribute xml:id='XID'
 	Late  bool   `json:"late,omitempty"`  // sendiq: context whose Err() turns non-nil on cancel but whose Done() never fires: the canceller goroutine never removes the entry (the window between cancellation and clean-up, held open)
 }
 type c07In struct {
@@ -40,7 +42,7 @@ func (c07) RunFn() string { return "run_C07" }
 func (c07) Workers() int  { return 8 }
 func (c07) Journal() bool { return true }
 func (c07) Rule() string {
-	return "forced schedules on the real Router/Client/Component: SendIQ (ids distinct or clashing, write ok or failing, response routed from inside the transport write i.e. before SendIQ returns), matching / duplicate / foreign responses routed synchronously, bursts of 2-6 concurrent copies of one response released together through the exported IQResultRouteLock, receiver reading or abandoning its channel, an ordinary route handler that itself calls SendIQ (re-entrancy into the pending table while a response is being routed), context cancellation before the response, with the clean-up goroutine run or held back (context whose Done() never fires); every routing call runs under a watchdog (a call that does not return is a blocked router); distinct = op sequence shape; non-trivial = at least one request and one response"
+	return "forced schedules on the real Router/Client/Component: SendIQ (ids distinct or clashing, write ok or failing, response routed from inside the transport write i.e. before SendIQ returns), matching / duplicate / foreign responses routed synchronously (one in four decoded from the wire by stanza.NextPacket with an xml:id look-alike naming another request), bursts of 2-6 concurrent copies of one response released together through the exported IQResultRouteLock, receiver reading or abandoning its channel, an ordinary route handler that itself calls SendIQ (re-entrancy into the pending table while a response is being routed), context cancellation before the response, with the clean-up goroutine run or held back (context whose Done() never fires); every routing call runs under a watchdog (a call that does not return is a blocked router); distinct = op sequence shape; non-trivial = at least one request and one response"
 }
 func (c07) Decode(raw json.RawMessage) (interface{}, error) {
 	var in c07In
@@ -66,6 +68,8 @@ func (c07) Gen(r *rand.Rand, tier string) []interface{} {
 		// an ordinary route handler that itself sends a request (re-entrancy into the pending table)
 		c07In{Component: true, Ops: []c07Op{{Op: "reenter", ID: 9}, {Op: "arrive", ID: 20}, {Op: "recv", Req: 0}}},
 		c07In{Ops: []c07Op{{Op: "sendiq", ID: 1}, {Op: "arrive", ID: 1}, {Op: "reenter", ID: 1}, {Op: "arrive", ID: 21}}},
+		// a response whose xml:id look-alike names another pending request must still go to its own id
+		c07In{Ops: []c07Op{{Op: "sendiq", ID: 1}, {Op: "sendiq", ID: 2}, {Op: "arrive", ID: 1, XID: 2}, {Op: "arrive", ID: 2, XID: 1}, {Op: "recv", Req: 0}, {Op: "recv", Req: 1}}},
 		// clashing ids
 		c07In{Ops: []c07Op{{Op: "sendiq", ID: 1}, {Op: "sendiq", ID: 1}, {Op: "arrive", ID: 1}, {Op: "arrive", ID: 1}, {Op: "recv", Req: 0}, {Op: "recv", Req: 1}}},
 		c07In{Ops: []c07Op{{Op: "sendiq", ID: 1, Fail: true}, {Op: "arrive", ID: 1}}},
@@ -86,7 +90,11 @@ func (c07) Gen(r *rand.Rand, tier string) []interface{} {
 				if nreq > 0 && r.Intn(5) == 0 {
 					id = 20 + r.Intn(nreq) // the answer to a request sent by a re-entrant handler (if that slot is one)
 				}
-				in.Ops = append(in.Ops, c07Op{Op: "arrive", ID: id})
+				op := c07Op{Op: "arrive", ID: id}
+				if r.Intn(4) == 0 {
+					op.XID = 1 + r.Intn(4) // decoded from the wire, with an xml:id look-alike naming another (maybe pending) request
+				}
+				in.Ops = append(in.Ops, op)
 			case c < 13:
 				in.Ops = append(in.Ops, c07Op{Op: "burst", ID: 1 + r.Intn(3), N: 2 + r.Intn(5)})
 			case c < 14:
@@ -228,12 +236,31 @@ func (c07) Run(inp interface{}) Sx {
 		sender, sendIQ = c, c.SendIQ
 	}
 	blocked := 0
+	xid := 0
 	routeSync := func(id int) {
 		done := make(chan struct{})
+		x := xid
+		xid = 0
 		go func() {
 			defer close(done)
-			iq, _ := stanza.NewIQ(stanza.Attrs{Type: stanza.IQTypeResult, Id: fmt.Sprint(id), From: "srv"})
-			xmpp.VerifRoute(router, sender, iq)
+			var pkt stanza.Packet
+			if x != 0 {
+				// as it would arrive: decoded from the stream
+				doc := fmt.Sprintf("<stream:stream xmlns='jabber:client' xmlns:stream='http://etherx.jabber.org/streams'><iq type='result' id='%d' xml:id='%d' from='srv'/>", id, x)
+				d := xml.NewDecoder(strings.NewReader(doc))
+				if _, err := stanza.InitStream(d); err != nil {
+					return
+				}
+				p, err := stanza.NextPacket(d)
+				if err != nil {
+					return
+				}
+				pkt = p
+			} else {
+				iq, _ := stanza.NewIQ(stanza.Attrs{Type: stanza.IQTypeResult, Id: fmt.Sprint(id), From: "srv"})
+				pkt = iq
+			}
+			xmpp.VerifRoute(router, sender, pkt)
 		}()
 		select {
 		case <-done:
@@ -298,6 +325,7 @@ func (c07) Run(inp interface{}) Sx {
 			}
 			reqs = append(reqs, rq)
 		case "arrive":
+			xid = o.XID
 			routeSync(o.ID)
 		case "reenter":
 			rq := &req{}
